@@ -38,10 +38,12 @@ func ValidateSyncCommitteeSubnet(ctx context.Context, subnet uint64, syncCommMes
 		return nil, GossipValidatorResult{IGNORE, err}
 	}
 
+	syncCommittee := SyncCommitteeForSlot(spec, epc, syncCommMessage.Slot)
+
 	// [REJECT] The subnet_id is valid for the given validator,
 	// i.e. subnet_id in compute_subnets_for_sync_committee(state, sync_committee_message.validator_index).
 	// Note this validation implies the validator is part of the broader current sync committee along with the correct subcommittee.
-	if !epc.CurrentSyncCommittee.InSubnet(spec, syncCommMessage.ValidatorIndex, subnet) {
+	if !syncCommittee.InSubnet(spec, syncCommMessage.ValidatorIndex, subnet) {
 		return nil, GossipValidatorResult{REJECT, fmt.Errorf("validator %d is not in sync committee subnet %d at slot %d",
 			syncCommMessage.ValidatorIndex, subnet, syncCommMessage.Slot)}
 	}
@@ -62,5 +64,5 @@ func ValidateSyncCommitteeSubnet(ctx context.Context, subnet uint64, syncCommMes
 
 	scpVal.MarkSyncCommMsg(syncCommMessage.ValidatorIndex, syncCommMessage.Slot, subnet)
 
-	return epc.CurrentSyncCommittee.Indices, GossipValidatorResult{ACCEPT, nil}
+	return syncCommittee.Indices, GossipValidatorResult{ACCEPT, nil}
 }
